@@ -13,18 +13,15 @@
    prop_ok runs on the implementation's observed dispatch sequence, Check/C01Check.v).
    wf_bytes: every element is < 256 (the streams are byte strings).
 
-   FULL STATEMENT of C01_dispatch_is_rfc_prefix (proved only in part, see C01_dispatch_is_rfc_prefix_partial):
-     forall cfg s, wf_bytes s -> let ds := dispatched (serve_frames cfg s) in
-       exists ms rest, s = concat ms ++ rest /\ length ms = length ds /\
-         forall i, rfc_message (concat (skipn i ms) ++ rest) = MMsg r_i c_i (Some (concat (skipn (S i) ms) ++ rest))
-                   with r_i = (method, target, body) of ds_i.
-   Missing for the full statement: (a) the RFC's own lexical reading of a head (Rfc9112.field_lines over the raw
-   bytes) yields the same CL/TE values as the code's scanner (HeadFields) — here the class is judged on the
-   scanner's fields; (b) for chunked bodies the chunk sequence is proved (C01_chunk_decoding_is_rfc) but not that
-   parseTrailer delimits the trailer section where Rfc9112.trailer_section does.  Both are checked on every
-   harness case by prop_ok (rfc_frame runs on the raw bytes). *)
+   C01_dispatch_is_rfc_prefix is proved at full strength (theorem 7): every dispatched request IS the message
+   RFC 9112 framing (Spec.Rfc9112.rfc_message, run on the raw bytes at the request's offset) assigns — same
+   method, target, body and end — and consecutive requests are consecutive messages; corollary
+   C01_model_meets_oracle: the dispatch sequence satisfies the oracle prop_ok for every stream and configuration.
+   Stages: C01_fields_agree_on_accepted_head (the RFC's lexical reading of an accepted head yields the same
+   Transfer-Encoding / Content-Length value lists as the code's scanner), C01_chunk_decoding_is_rfc and
+   C01_trailer_end_is_rfc (chunk sequence and trailer-section end are the RFC's). *)
 From FH Require Import Model.Base Model.Lines Model.ReqHead Model.Body Model.Framing Spec.Rfc9112 Spec.HeadSpec
-  Check.C01Check Proof.FramingProof.
+  Check.C01Check Proof.FramingProof Proof.FramingLexProof.
 Open Scope nat_scope.
 
 (* ---- 1. the framing decision table: for EVERY version flag and EVERY pair of value lists, whenever the code
@@ -117,23 +114,58 @@ Theorem C01_continue_or_close : forall c s i d,
 Proof. exact continue_or_close. Qed.
 Print Assumptions C01_continue_or_close.
 
-(* ---- 7. boundaries, method, target, body — the part the imported head / body theorems give:
-        the head of a dispatched request is exactly the shortest prefix (of the input at its offset) that ends in a
-        blank line under the LF-tolerant line rule of RFC 9112 section 2.2 (Spec.HeadSpec.head_len); method and
-        target are those of its request line; when the RFC assigns a fixed length k (valid single Content-Length,
-        or none: k = 0) the message is head + exactly k octets and the handler's body is those k octets
-        (None: pre-parsed into a multipart form, the k octets are consumed all the same) ---- *)
-Theorem C01_dispatch_is_rfc_prefix_partial : forall c s i d,
+(* ---- 7. C01_dispatch_is_rfc_prefix (FULL): for every configuration and byte stream, every dispatched request is
+        the message RFC 9112 assigns to the bytes at its offset: rfc_message — the RFC's own line splitting, request
+        line, field lines, list reading, section 6.3 length rules and chunked grammar, run on the raw bytes — returns a
+        message that is not Invalid, with the request's method and target; when the RFC assigns a length
+        (rest = Some x) the message ends exactly where the request ended (x = the input from dp_off + dp_len on, which by
+        C01_continue_or_close is where the next request starts) and the handler's body is the RFC's body (None: the
+        bytes were pre-parsed into a multipart form); when it assigns none (lone identity, Transfer-Encoding on
+        HTTP/1.0) the class is AmbiguousMustClose; and whenever the class is not Clean the request is the last ---- *)
+Theorem C01_dispatch_is_rfc_prefix : forall c s i d,
   wf_bytes s -> nth_error (disp (serve_frames c s)) i = Some d ->
-  head_len (skipn (dp_off d) s) = Some (dp_hlen d) /\
-  exists line l, HeadFields (dp_win d) line l /\ dp_method d = rl_method line /\ dp_uri d = rl_uri line /\
-    match d_len (rfc_decision (negb (rl_noHTTP11 line)) (te_vals (hcfg_of c) l) (cl_vals (hcfg_of c) l)) with
-    | BFixed k => dp_len d = dp_hlen d + N.to_nat k /\
-                  (dp_body d = None \/ dp_body d = Some (firstn (N.to_nat k) (skipn (dp_off d + dp_hlen d) s)))
-    | _ => True
+  exists r cl rest,
+    rfc_message (skipn (dp_off d) s) = MMsg r cl rest /\ cl <> Invalid /\
+    r_method r = dp_method d /\ r_target r = dp_uri d /\
+    (cl <> Clean -> S i = length (disp (serve_frames c s))) /\
+    match rest with
+    | Some x => x = skipn (dp_off d + dp_len d) s /\ r_body r <> None /\ (dp_body d = None \/ dp_body d = r_body r)
+    | None => cl = AmbiguousMustClose /\ r_body r = None
     end.
-Proof. exact dispatch_prefix_partial. Qed.
-Print Assumptions C01_dispatch_is_rfc_prefix_partial.
+Proof. exact dispatch_is_rfc. Qed.
+Print Assumptions C01_dispatch_is_rfc_prefix.
+
+(* corollary: the model's dispatch sequence passes the property oracle (Check.C01Check.judge over rfc_frame of the
+   raw stream) — what prop_ok demands of the implementation's observations holds of the model for ALL inputs *)
+Theorem C01_model_meets_oracle : forall c s, wf_bytes s ->
+  judge (rfc_requests s) (map obs_of (disp (serve_frames c s))) = true.
+Proof. exact model_meets_oracle. Qed.
+Print Assumptions C01_model_meets_oracle.
+
+(* ---- 7a. stage (a): on every head the code accepts (w = the buffered bytes, z = whatever follows in the stream),
+        the RFC's reading of w ++ z finds the same request line (method, target; HTTP/1.1 whenever the code says
+        so), ends the header block after exactly the n bytes the code consumed, and its Transfer-Encoding /
+        Content-Length value lists are the code's scanner's (te_vals / cl_vals of HeadFields) ---- *)
+Theorem C01_fields_agree_on_accepted_head : forall cfg w z hd n,
+  disable_special cfg = false -> wf_bytes w -> req_head_parse cfg w = HOk (hd, n) ->
+  exists ln r1 q fs line l,
+    skip_empty_lines (length (w ++ z)) (w ++ z) <> [] /\
+    take_line (skip_empty_lines (length (w ++ z)) (w ++ z)) = Some (ln, r1) /\
+    parse_request_line ln = Some q /\ rq_method q = meth hd /\ rq_target q = target hd /\
+    (http11 hd = true -> rq_v11 q = true) /\
+    field_lines (S (length r1)) [] r1 = FsOk fs (skipn n (w ++ z)) /\
+    HeadFields w line l /\ http11 hd = negb (rl_noHTTP11 line) /\
+    field_values name_transfer_encoding fs = te_vals cfg l /\
+    field_values name_content_length fs = cl_vals cfg l.
+Proof. exact accepted_head_rfc. Qed.
+Print Assumptions C01_fields_agree_on_accepted_head.
+
+(* the head boundary is also the one of fasthttp's own line rule (Spec.HeadSpec, C09) *)
+Theorem C01_head_boundary_is_line_rule : forall c s i d,
+  wf_bytes s -> nth_error (disp (serve_frames c s)) i = Some d ->
+  head_len (skipn (dp_off d) s) = Some (dp_hlen d).
+Proof. exact head_boundary_line_rule. Qed.
+Print Assumptions C01_head_boundary_is_line_rule.
 
 (* ---- 7b. chunked bodies: whatever readBodyChunked accepts (any limit, any input), the chunk grammar of
         RFC 9112 section 7.1 accepts, with the same decoded data and the same unread rest (= where the
@@ -142,6 +174,13 @@ Theorem C01_chunk_decoding_is_rfc : forall max b d r pk,
   wf_bytes b -> readBodyChunked max [] b = BOk d r pk -> chunks (S (length b)) b = ChOk d r.
 Proof. exact readBodyChunked_rfc. Qed.
 Print Assumptions C01_chunk_decoding_is_rfc.
+
+(* ---- 7c. stage (b): where header.ReadTrailer stops (parseTrailer over the reader window), the RFC's
+        trailer-section CRLF ends ---- *)
+Theorem C01_trailer_end_is_rfc : forall bsize r rest,
+  read_trailer bsize r = TrDone rest -> trailer_section (S (length r)) r = Some rest.
+Proof. exact read_trailer_rfc. Qed.
+Print Assumptions C01_trailer_end_is_rfc.
 
 (* ---- 8. configuration.  FULL statement ("the dispatched sequence is the same for all configurations") is
         false by design of the options: GetOnly rejects other methods, DisablePreParseMultipartForm changes how a
@@ -152,7 +191,7 @@ Print Assumptions C01_chunk_decoding_is_rfc.
         DisableHeaderNamesNormalizing. ---- *)
 Theorem C01_cfg_independent_reduce : forall b c s,
   serve_frames (set_reduce b c) s = serve_frames c s.
-Proof. intros b c s. apply serve_reduce_indep. Qed.
+Proof. exact serve_frames_reduce_indep. Qed.
 Print Assumptions C01_cfg_independent_reduce.
 
 Theorem C01_cfg_independent_fields : forall cfg cfg' (l : list kv3),
